@@ -66,6 +66,7 @@ def holds (tbl : ClassTable) : Cond → Obj → Bool
   | .notIn c, o => !((elemsOf c).any fun e => Obj.pyEq o e)
   | .truthy, o => truthy o
   | .len op n, o => (match objLen o with | some k => op.eval (Int.ofNat k) n | none => false)
+  | .lenRev op n, o => (match objLen o with | some k => op.eval n (Int.ofNat k) | none => false)
   | .typeIs t, o => mem tbl o t
   | .typeGuard t, o => mem tbl o t
   | .matchClass c, o => tbl.issub (clsOf tbl o) c
@@ -83,6 +84,7 @@ def condOk (tbl : ClassTable) (c : Cond) (o : Obj) : Bool :=
   (match c with
    | .issub _ => (match o with | .cls _ => true | _ => false)
    | .len _ _ => (objLen o).isSome
+   | .lenRev _ _ => (objLen o).isSome
    | .inC k => (containerElems k).isSome && inDefined k o
    | .notIn k => (containerElems k).isSome && inDefined k o
    | .is l => isSingleton tbl l
@@ -101,6 +103,7 @@ def tested : Cond → Ty
   | .notIn c => .union ((elemsOf c).map .known)
   | .truthy => Ty.never
   | .len _ _ => Ty.never
+  | .lenRev _ _ => Ty.never
   | .typeIs t => t
   | .typeGuard t => t
   | .matchClass c => .typed c
@@ -108,7 +111,7 @@ def tested : Cond → Ty
   | .assertIs l => .known l
 
 /-- the constraint applied in the branch where the condition evaluates to `pol` -/
-def Cond.kAt (c : Cond) (pol : Bool) : K := if pol then c.k else c.k.invert
+def Cond.kAt (T : BoolTable) (c : Cond) (pol : Bool) : K := if pol then c.k T else (c.k T).invert
 
 /-! ### Exception classes
 
@@ -181,9 +184,25 @@ def dK (tbl : ClassTable) (T : BoolTable) (k : K) (tst : Ty) (o : Obj) (m : Ty) 
        | none => [])
   | _ => []
 
+/-- Exception class of the *condition* (independent of the union members):
+`reversedLenCompare` — `<literal> <op> len(x)` is turned into the constraint of
+`len(x) <op> <literal>` (name_check_visitor.py:3560, the operator is not mirrored), so for an
+ordering comparison the two branches are exchanged for every object on whose length the comparison
+and its mirror image disagree. Empty when the live tree mirrors the operator
+(`T.lenRevMirrored`). -/
+def dCond (T : BoolTable) (c : Cond) (o : Obj) : List String :=
+  match c with
+  | .lenRev op n =>
+    (match objLen o with
+     | some k =>
+       if !T.lenRevMirrored && (op.eval n (Int.ofNat k) != op.eval (Int.ofNat k) n) then
+         ["reversedLenCompare"] else []
+     | none => [])
+  | _ => []
+
 /-- the classes the input `(V, c, pol, o)` falls in -/
 def d02 (tbl : ClassTable) (T : BoolTable) (v : Ty) (c : Cond) (pol : Bool) (o : Obj) : List String :=
-  ((flatten1 v).filter fun m => mem tbl o m).flatMap fun m => dK tbl T (c.kAt pol) (tested c) o m
+  dCond T c o ++ ((flatten1 v).filter fun m => mem tbl o m).flatMap fun m => dK tbl T (c.kAt T pol) (tested c) o m)
 
 /-- classification of a wrong "always true" verdict on the whole value -/
 def dVerdict (tbl : ClassTable) (T : BoolTable) (v : Ty) (o : Obj) : List String :=
@@ -312,6 +331,94 @@ made abstract base classes and protocols boolable). -/
 def noLeakTable (tbl : ClassTable) (T : BoolTable) : Bool :=
   allBelow T.typeBoolL.length fun c =>
     !((T.typeBool c).safelyTrue && falsyClasses.any fun d => d == c || sub tbl d c)
+
+/-! ### `match` statements: what a pattern means at run time -/
+
+mutual
+/-- **CPython's meaning of a pattern** on a subject: a singleton pattern compares by identity
+(`1` does *not* match `case True`), a value pattern by `==`, a class pattern without sub-patterns is
+`isinstance`, the wildcard always matches. -/
+def Pat.matches (tbl : ClassTable) : Pat → Obj → Bool
+  | .singleton l, o => Obj.same o l
+  | .value l, o => Obj.pyEq o l
+  | .cls c, o => tbl.issub (clsOf tbl o) c
+  | .wildcard, _ => true
+  | .or ps, o => Pat.matchesAny tbl ps o
+def Pat.matchesAny (tbl : ClassTable) : List Pat → Obj → Bool
+  | [], _ => false
+  | p :: ps, o => p.matches tbl o || Pat.matchesAny tbl ps o
+end
+
+/-- index of the case whose body runs (`ps.length`: none) -/
+def firstMatch (tbl : ClassTable) : List Pat → Obj → Nat
+  | [], _ => 0
+  | p :: ps, o => if p.matches tbl o then 0 else firstMatch tbl ps o + 1
+
+mutual
+/-- side conditions of the quantifier for a pattern: a singleton pattern is `None`/`True`/`False`
+(no equality exemption: identity is exact); for a value pattern equality of the subject with the
+literal implies that they are the same object of the same type -/
+def Pat.ok (tbl : ClassTable) : Pat → Obj → Bool
+  | .singleton l, _ => (match l with | .none => true | .bool _ => true | _ => false)
+  | .value l, o => l.wf tbl && (!(Obj.pyEq o l) || objDeq o l)
+  | .cls _, _ => true
+  | .wildcard, _ => true
+  | .or ps, o => Pat.okAll tbl ps o
+def Pat.okAll (tbl : ClassTable) : List Pat → Obj → Bool
+  | [], _ => true
+  | p :: ps, o => p.ok tbl o && Pat.okAll tbl ps o
+end
+
+mutual
+def Pat.tested : Pat → Ty
+  | .singleton l => .known l
+  | .value l => .known l
+  | .cls c => .typed c
+  | .wildcard => Ty.never
+  | .or ps => .union (Pat.testedL ps)
+def Pat.testedL : List Pat → List Ty
+  | [] => []
+  | p :: ps => p.tested :: Pat.testedL ps
+end
+
+/-- `dK` looking one level into `one_of` / `all_of` (classification of or-patterns) -/
+def dKdeep (tbl : ClassTable) (T : BoolTable) (k : K) (tst : Ty) (o : Obj) (m : Ty) : List String :=
+  let inner := fun (k' : K) => match k' with
+    | .allOf ks => ks.flatMap fun k'' => dK tbl T k'' tst o m
+    | k' => dK tbl T k' tst o m
+  match k with
+  | .oneOf ks => ks.flatMap inner
+  | k => inner k
+
+/-- classes met while the constraints of a case are applied one after the other (classification of
+a failing `match` input by the driver) -/
+def dSteps (tbl : ClassTable) (T : BoolTable) (tst : Ty) (o : Obj) : List K → List Ty → List String
+  | [], _ => []
+  | k :: ks, vs =>
+    ((vs.filter fun m => mem tbl o m).flatMap fun m => dKdeep tbl T k tst o m) ++
+      dSteps tbl T tst o ks (vs.flatMap fun v => applyK tbl T k v)
+
+def dMatch (tbl : ClassTable) (T : BoolTable) (v : Ty) (ps : List Pat) (i : Nat) (o : Obj) : List String :=
+  (dSteps tbl T (.union (Pat.testedL ps)) o (caseKs T ps i) (flatten1 v)).eraseDups
+
+/-- the literals of singleton patterns -/
+def singles : List Obj := [.none, .bool true, .bool false]
+
+/-- exactness of literal acceptance for the singleton literals on one member (the absence of
+class `literalInexact` for `None`/`True`/`False`): a non-literal member that contains the literal
+accepts it -/
+def singOkM (tbl : ClassTable) (m : Ty) : Bool :=
+  (match unann m with | .known _ => true | _ => false) ||
+    singles.all fun l => !(mem tbl l m) || ca tbl false m (.known l)
+
+def singOk (tbl : ClassTable) (v : Ty) : Bool := (flatten1 v).all (singOkM tbl)
+
+/-- the statement only has singleton patterns and wildcards -/
+def singlePats : List Pat → Bool
+  | [] => true
+  | .singleton l :: ps => singles.any (fun s => objDeq l s) && singlePats ps
+  | .wildcard :: ps => singlePats ps
+  | _ :: _ => false
 
 /-! the abstract constraint contains no `PredicateProvider` (whose inverse is the null constraint) -/
 mutual
